@@ -1,8 +1,5 @@
 SPECIFICATION Spec
-CONSTANTS NVars = 3
- MaxLen = 3
- MaxClauses = 4
- Shape = "set"
+CONSTANT Parts <- PartsSet3x
 INVARIANT ResolutionSound
 INVARIANT RefutationComplete
 INVARIANT CertificateAccepted
